@@ -48,6 +48,17 @@ class Atom(tuple):
         return isinstance(x, str) and x in str(self)
 
 
+def _operand_text(e):
+    """Arithmetic operands of a comparison in polynomial normal form (4 + 1 reads as 5, a - b + b as a)."""
+    if isinstance(e, ast.BinOp) and isinstance(e.op, (ast.Add, ast.Sub, ast.Mult)):
+        try:
+            from .linform import poly, show
+            return show(poly(e))
+        except Exception:
+            pass
+    return src(e)
+
+
 def atom(e, truth=True):
     """Canonical (Atom, truth) of an atomic condition."""
     while isinstance(e, ast.UnaryOp) and isinstance(e.op, ast.Not):
@@ -55,7 +66,7 @@ def atom(e, truth=True):
         truth = not truth
     if isinstance(e, ast.Compare) and len(e.ops) == 1:
         op = e.ops[0]
-        l, r = src(e.left), src(e.comparators[0])
+        l, r = _operand_text(e.left), _operand_text(e.comparators[0])
         if isinstance(op, ast.IsNot):
             return (Atom(("is", l, r)), not truth)
         if isinstance(op, ast.Is):
@@ -459,8 +470,19 @@ class Summariser(object):
             t = src(subst_target(target, p.env))
             p.effects.append(("store", t, value))
             self.bump(p)
-            # the container is no longer what it was bound to
             b = target.value
+            # a list display still owned by this name: the element is replaced in the display
+            if not self.safe and isinstance(b, ast.Name) and isinstance(p.env.get(b.id), ast.List):
+                idx = subst(target.slice, p.env)
+                if isinstance(idx, ast.UnaryOp) and isinstance(idx.op, ast.USub) and isinstance(idx.operand, ast.Constant):
+                    idx = ast.Constant(value=-idx.operand.value)
+                lst = p.env[b.id]
+                if isinstance(idx, ast.Constant) and isinstance(idx.value, int) and -len(lst.elts) <= idx.value < len(lst.elts):
+                    new = copy.deepcopy(lst)
+                    new.elts[idx.value] = value
+                    p.env[b.id] = new
+                    return
+            # the container is no longer what it was bound to
             if isinstance(b, ast.Name):
                 v = p.env.pop(b.id, None)
                 if self.safe and v is not None:
@@ -590,6 +612,8 @@ class Summariser(object):
                         if self.safe:
                             p.frozen[nm] = v
             elif isinstance(x, ast.Subscript) and isinstance(x.ctx, (ast.Store, ast.Del)) and isinstance(x.value, ast.Name):
+                if not self.safe and isinstance(x.ctx, ast.Store) and isinstance(p.env.get(x.value.id), ast.List):
+                    continue        # element replaced in the owned display (assign)
                 v = p.env.pop(x.value.id, None)
                 if self.safe and v is not None:
                     p.frozen[x.value.id] = v
